@@ -136,12 +136,15 @@ PROPS["C17"] = dict(
 
 PROPS["C10"] = dict(
     functions=_PARSE_FUNCS,
-    bounds="every accepted message of up to 36 bytes (quick; fits every order/subset of the three seal attributes with empty MI/SHA256 values) / 40 bytes (thorough); two-buffer check up to 32 bytes",
-    outside=["messages longer than 40 bytes", "the byte range covered by the HMAC is asserted in C04 (validate_integrity recorder)"],
+    bounds="every accepted message of up to 36 bytes (fits every order/subset of the three seal attributes with empty MI/SHA256 values), as a two-way case split on the first attribute",
+    outside=["messages longer than 36 bytes", "the two-buffer formulation ('replacing the bytes after the first integrity attribute never changes the exposed attributes before it') as its own query: c10_two_buffers_32 did not finish in 28 min (experimental tier); "
+             "it follows from the table: the exposed prefix up to the first integrity attribute is determined by the bytes up to it", "the byte range covered by the HMAC is asserted in C04 (validate_integrity recorder)"],
     stubs=[_CRC_STUB],
     jobs=[
-        K("c10::c10_tail_36", encodes="exposed attributes of every accepted message == explicit table over the accepted seal tails", bounds="len 0..=36", mem=16, timeout=2400),
-        K("c10::c10_two_buffers_32", encodes="two messages equal up to the end of the first integrity attribute expose the same attributes up to it", bounds="len <= 32 each", mem=16, timeout=2400,
+        K("c10::c10_tail_36_seal_first", encodes="exposed attributes of every accepted message == explicit table over the accepted seal tails; case 1 of 2: first attribute is MESSAGE-INTEGRITY / -SHA256 / FINGERPRINT", bounds="len 0..=36", mem=16, timeout=1500),
+        K("c10::c10_tail_36_ordinary_first", encodes="same; case 2 of 2: first attribute is an ordinary attribute (or there is none)", bounds="len 0..=36", mem=16, timeout=1500),
+        K("c10::c10_tail_36", T, encodes="the same claim as one query (no case split)", bounds="len 0..=36", mem=16, timeout=2400),
+        K("c10::c10_two_buffers_32", X, encodes="two messages equal up to the end of the first integrity attribute expose the same attributes up to it (did not finish in 28 min)", bounds="len <= 32 each", mem=16, timeout=2400,
           unwindset=[["kani/src/c10.rs", "splice", 34]]),
         K("c10::c10_tail_40", T, encodes="as tail_36", bounds="len 0..=40", mem=24, timeout=7200),
     ],
@@ -237,8 +240,10 @@ PROPS["C09"] = dict(
     ],
 )
 
-_c12 = [K("c12::c12_" + n, encodes="write_into == to_raw().to_bytes(); padded length; zero padding; nothing beyond touched; short destination -> TooSmall and untouched",
-          bounds="destination sizes 0..=64 (24 for raw), all values within the C08 bounds", mem=26 if n in ("alternate_server", "xor_mapped_address", "error_code") else 12, timeout=1800)
+# quick commands are stopped after 900 s: the six slowest attribute harnesses (260-520 s each, three of them > 14 GB) are thorough-tier
+_C12_SLOW = ("realm", "nonce", "alternate_domain", "alternate_server", "xor_mapped_address", "error_code")
+_c12 = [K("c12::c12_" + n, T if n in _C12_SLOW else Q, encodes="write_into == to_raw().to_bytes(); padded length; zero padding; nothing beyond touched; short destination -> TooSmall and untouched",
+          bounds="destination sizes 0..=64 (24 for raw), all values within the C08 bounds", mem=24 if n in ("alternate_server", "xor_mapped_address", "error_code") else 7, timeout=1500)
         for n in ["username", "realm", "nonce", "software", "alternate_domain", "error_code", "unknown_attributes", "message_integrity",
                   "message_integrity_sha256", "userhash", "fingerprint", "priority", "use_candidate", "ice_controlled", "ice_controlling",
                   "password_algorithm", "password_algorithms", "xor_mapped_address", "alternate_server", "raw_attribute"]]
@@ -287,7 +292,7 @@ PROPS["C04"] = dict(
              "messages with more than 2 attributes; HMAC values for inputs other than the embedded vectors (independent implementation: CPython hmac/hashlib)"],
     stubs=["MessageIntegrity::verify / MessageIntegritySha256::verify -> recorder + unconstrained verdict in c04_validate_record and c04_long_term_key", _CRC_STUB],
     jobs=[
-        K("c04::c04_validate_record_44", encodes="validate_integrity: which attribute is checked, HMAC input = message up to it with rewritten length, expected = its value, key = password, verdict = MAC verdict, missing attribute reported",
+        K("c04::c04_validate_record_44", T, encodes="validate_integrity: which attribute is checked, HMAC input = message up to it with rewritten length, expected = its value, key = password, verdict = MAC verdict, missing attribute reported",
           bounds="len <= 44 (fits [MI], [X, SHA256/16], [SHA256/16..24]), <= 2 attributes, password <= 3 bytes", mem=26, timeout=3000,
           unwindset=[["stun-types/src/message.rs", "validate_integrity", 3], ["kani/src/refdec.rs", "refdec", 14], ["raw:memcmp.0", "*", 34]]),
         K("c04::c04_validate_record", T, encodes="same with both integrity attributes in one message", bounds="len <= 64, <= 2 attributes, password <= 3 bytes", mem=45, timeout=7200,
